@@ -247,6 +247,8 @@ pub mod hash_map {
 // /verif/model/std_helpers.rs with the same signatures, consuming kani::any() values in the same order.
 pub mod helpers {
     use super::{HashMap, HashSet, Slot, CAP};
+    /// the Vec type of a file rewritten with T1v, for harness code that must also build natively (std_helpers.rs: std Vec)
+    pub type VecM<T> = super::VVec<T>;
     /// an arbitrary map: every slot independently empty or holding (fk(), fv()). Distinctness of keys is NOT
     /// implied; harnesses assume `keys_distinct` (std::collections::HashMap guarantees it).
     #[cfg(kani)]
